@@ -100,17 +100,35 @@ def run_params(case):
 
 
 # ------------------------------------------------------------------ implementation side
+_TOKEN = {"run": None}
+
+
+def new_run_token():
+    """a fresh identity for one run of one case (not drawn from the case generator's PRNG: it must differ between
+    two runs of the same case in one process, e.g. a replay after the check)"""
+    import uuid
+
+    _TOKEN["run"] = uuid.uuid4().hex
+    return _TOKEN["run"]
+
+
+def own_records(log):
+    """the log records written by models of the current run (worker threads of earlier runs may still be alive)"""
+    return [r for r in log if r[0] == "fault" and (len(r) < 7 or r[6] == _TOKEN["run"])]
+
+
 def build_pipeline(case, extra_first=None):
     import pyx
 
-    plan = None
+    # every model carries the token of THIS run (see probes.fault): ticket counter and log records are per run
+    plan = {"id": None, "token": _TOKEN["run"]}
     if case["fault"]:
         f = case["fault"]
         lv = run_params(case)[f["run"]]
         plan = {"id": f["id"], "step": f["step"], "exc": f["exc"], "msg": f["msg"], "note": f["note"],
                 "level": lv[0] if case["mode"] in ("sequential", "parallel") else None,
                 "level2": lv[1] if (case["mode"] in ("sequential", "parallel") and case["levels2"]) else None,
-                "nth": f.get("nth"), "model_seed": f.get("model_seed")}
+                "nth": f.get("nth"), "model_seed": f.get("model_seed"), "token": _TOKEN["run"]}
         if plan["nth"] is not None:
             plan["step"] = None
     d = {}
@@ -138,7 +156,7 @@ def trace_from_log(case, log):
     """(run, step, pos) of every logged call; the run counter advances whenever the schedule restarts"""
     sched = [x[2] for x in schedule(case["groups"])]
     out, run, prev = [], 0, None
-    for rec in log:
+    for rec in own_records(log):
         if rec[0] != "fault" or rec[1] not in sched:
             if rec[0] == "fault" and rec[1].partition("/")[0] == sched[0].partition("/")[0]:
                 out.append([-1, rec[4], -1])  # a model of this pipeline that is not in the schedule was executed
@@ -158,7 +176,7 @@ def run_impl(case):
     import pyxel
 
     probes.reset()
-    probes.FAULT_CALLS["n"] = 0
+    new_run_token()
     mode = case["mode"]
     times = [float(i + 1) for i in range(case["steps"])]
     det = pyx.make_detector("CCD", 3, 4)
@@ -207,7 +225,7 @@ def run_impl(case):
                 out["build"] = {"ok": type(res).__name__}
             except Exception as e:  # noqa: BLE001
                 out["build"] = {"err": exc_record(e)}
-            out["calls_at_build"] = sum(1 for r in list(probes.LOG) if r[0] == "fault")
+            out["calls_at_build"] = len(own_records(list(probes.LOG)))
             if res is not None:
                 try:
                     loaded = res.load()
@@ -265,7 +283,7 @@ def run_impl(case):
                 out["result"] = {"ok": type(res).__name__}
             except Exception as e:  # noqa: BLE001
                 out["result"] = {"err": exc_record(e)}
-            out["calls"] = sum(1 for r in probes.LOG if r[0] == "fault")
+            out["calls"] = len(own_records(list(probes.LOG)))
             return out
         finally:
             shutil.rmtree(tmp, ignore_errors=True)
@@ -337,7 +355,6 @@ def run_yaml(case, times):
             yaml.safe_dump(yaml_document(case, times, tmp), fh, sort_keys=False)
         os.chdir(tmp)  # pyxel.run moves ./pyxel.log into the output folder
         probes.reset()
-        probes.FAULT_CALLS["n"] = 0
         try:
             res = pyxel.run(path)
             out["result"] = {"ok": type(res).__name__}
@@ -345,7 +362,7 @@ def run_yaml(case, times):
             out["result"] = {"err": exc_record(e)}
         if case["mode"] in ("exposure", "sequential"):
             out["trace"] = trace_from_log(case, list(probes.LOG))
-        out["calls"] = sum(1 for r in probes.LOG if r[0] == "fault")
+        out["calls"] = len(own_records(list(probes.LOG)))
         return out
     finally:
         os.chdir(cwd)
